@@ -1088,7 +1088,15 @@ class ListTerm(PreTerm):
         # can't use == as that builds a larger expression
         if not isinstance(other, ListTerm):
             return False
-        return self.value == other.value
+        if len(self.value) != len(other.value):
+            return False
+        for lft, rgt in zip(self.value, other.value):
+            if isinstance(lft, PreTerm):
+                if not lft.is_equal(rgt):
+                    return False
+            elif isinstance(rgt, PreTerm) or (lft != rgt):
+                return False
+        return True
 
     def act_on(self, arg, *, expr_walker: ExpressionWalker):
         """
